@@ -102,6 +102,9 @@ func alphabet(thorough bool) []op {
 		{kind: "enq", agent: idD, class: 'S', viaOp: true, name: "operator-sleep(D)"},
 		{kind: "checkin", agent: idD, withCB: true, name: "checkin+pending-output(D)"},
 		{kind: "enq", agent: idD, class: '0', name: "enq(D,no-arguments)"},
+		// P reports the SMB link to C again (a reconnect of the session that is there), then checks in:
+		// nothing was queued by that, P is handed what was waiting and nothing twice
+		{kind: "reconnect-checkin", agent: idP, name: "reconnect(C below P)+checkin(P)"},
 	}
 	return a
 }
@@ -127,6 +130,12 @@ func (w *world) reset() {
 	for _, a := range w.ts.T.Agents.Agents {
 		a.JobQueue = nil
 		a.Tasks = nil
+		a.Active = true
+		a.Pivots.Parent, a.Pivots.Links = nil, nil
+	}
+	if c, p := w.ts.Agent(idC), w.ts.Agent(idP); c != nil && p != nil {
+		c.Pivots.Parent = p
+		p.Pivots.Links = []*agent.Agent{c}
 	}
 	w.ts.T.EventsList = nil
 	w.m = &model{q: map[uint32][]mjob{}}
@@ -147,6 +156,19 @@ func keyOf(id uint32) byte {
 // apply executes one op on the real teamserver and the model; it returns a
 // description of a disagreement ("" if none) and an outcome class.
 func (w *world) apply(o op) (string, string) {
+	if o.kind == "reconnect-checkin" {
+		reg := demonwire.Register(idC, seam.Key(keyOf(idC)), seam.IV(keyOf(idC)), demonwire.DefaultMeta(idC))
+		b := (&demonwire.W{}).I32(agent.DEMON_PIVOT_SMB_CONNECT).I32(1).Bytes(reg).B
+		body := demonwire.CallbacksOnly(idP, seam.Key(keyOf(idP)), seam.IV(keyOf(idP)), demonwire.Sub{Cmd: agent.COMMAND_PIVOT, Body: b})
+		if r := w.ts.Post(body); r.Panic != nil {
+			return fmt.Sprintf("panic: %v", r.Panic), "panic"
+		}
+		c, p := w.ts.Agent(idC), w.ts.Agent(idP)
+		if c == nil || c.Pivots.Parent != p {
+			return "after P's connect report C is not linked below P", "reconnect-not-applied"
+		}
+		o.kind = "checkin"
+	}
 	switch o.kind {
 	case "enq":
 		w.nx++
